@@ -6,27 +6,6 @@ From YP Require Import Outcome PyStr PyVal Doc Generated PathParser PathPrinter 
 Import ListNotations.
 Open Scope nat_scope.
 
-Lemma seg_ok_not_sub es us : seg_ok es us = true -> is_sub_seg es = false.
-Proof.
-  destruct es as [[[]|] a]; cbn; intros H; try reflexivity; try discriminate.
-Qed.
-
-Lemma frag_no_sub : forall n p, pweight p <= n -> in_fragment p = true -> no_sub p = true.
-Proof.
-  induction n as [|n IH]; intros p Hw Hf.
-  - destruct p; cbn in Hw; lia.
-  - destruct p as [segs|e]; [|reflexivity].
-    rewrite in_fragment_ppath in Hf. rewrite no_sub_ppath. rewrite pweight_ppath in Hw.
-    assert (Hw' : wsegs segs <= n) by lia. clear Hw.
-    induction segs as [|[es us s s2] r IHr]; [reflexivity|].
-    cbn in Hf, Hw' |- *.
-    apply andb_prop in Hf; destruct Hf as [Hf H4]. apply andb_prop in Hf; destruct Hf as [Hf H3].
-    apply andb_prop in Hf; destruct Hf as [H1 H2].
-    rewrite (seg_ok_not_sub _ _ H1). cbn.
-    rewrite (IH s) by (auto; lia). rewrite (IH s2) by (auto; lia). cbn.
-    apply IHr; auto. lia.
-Qed.
-
 Lemma clean_of s : clean_or_mut s -> pure_stop s -> clean_stop s.
 Proof. destruct s as [|[]| |]; cbn; tauto. Qed.
 
@@ -48,7 +27,7 @@ Theorem required_only_ype p d :
 Proof.
   intros H. apply clean_of.
   - apply get_required_clean; auto.
-  - apply get_required_pure; auto. eapply frag_no_sub; eauto.
+  - apply get_required_pure; auto.
 Qed.
 
 Theorem exists_only_ype p d :
@@ -56,7 +35,7 @@ Theorem exists_only_ype p d :
 Proof.
   intros H. apply clean_of.
   - apply exists_clean; auto.
-  - apply exists_pure; auto. eapply frag_no_sub; eauto.
+  - apply exists_pure; auto.
 Qed.
 
 Theorem optional_only_ype p d :
